@@ -13,7 +13,7 @@ REQUIRED = ['cw_exact', 'cw_none', 'cw_unique',
             'smithSpec_dominating', 'smithSpec_nonempty', 'smithSpec_least',
             'schwartzSpec_is_union_of_minimal_undominated',
             'smith_is_least_dominating', 'schwartz_is_union_of_minimal_undominated',
-            'smith_nodup', 'schwartz_nodup', 'smith_of_cw', 'dominating_iff', 'undominated_iff']
+            'smith_nodup', 'schwartz_nodup', 'smith_of_cw', 'schwartz_subset_smith', 'dominating_iff', 'undominated_iff']
 UNPROVED = []
 REQUIRED_COUNTERS = ['fully_tied_pair', 'mutually_tied_unbeaten', 'missing_pair', 'missing_reverse', 'has_cw', 'cycle',
                      'from_ranked', 'all_tied', 'fraction']
